@@ -119,6 +119,36 @@ def c14(ctx):
              "operand itself (outcome table by KIND; the same is_truthy that and/or/nor and the conditions use)")
     from .c03 import unary_rule
     unary_rule(ctx, "C14.R6")
+    rep.rule("C14.R8", "`let x be <op> e` is always read as the compound form: in Parser::parse_let_assignment every non-error path passes the "
+             "one optional match of the operator tokens {+, with, -, *, /} (whose outcome alone decides Assignment.operator) before the value is "
+             "parsed -- no look-ahead at what follows the operator (a number, a literal ...) takes another route, so `let x be -5` and "
+             "`let x be x -5` agree")
+    pl_ = F.fn("frontend::parser::Parser::<'a>::parse_let_assignment")
+    if pl_ is None:
+        rep.fail("C14.R8", "anchor", "Parser::parse_let_assignment not found")
+    else:
+        from .. import tokens as _tokens
+        rep.analysed(pl_)
+        ms = [bi for bi, t in pl_.calls() if callee_def(t) == "frontend::parser::Parser::<'a>::match_and_consume"
+              and (_tokens.resolve_token_set(F, pl_, t["args"][1]) or set()) >= {"Plus", "Minus", "Multiply", "Divide"}]
+        vals = [bi for bi, t in pl_.calls() if (callee_def(t) or "").endswith(("::parse_toplevel_expression_list", "::parse_expression_list", "::parse_expression"))]
+        ok, why = True, ""
+        if len(ms) != 1:
+            ok, why = False, "expected one match of the compound operator tokens, found %d" % len(ms)
+        elif common.path_to_return_avoiding(pl_, ms):
+            ok, why = False, "some `let` statements are parsed without asking whether an operator follows `be`: `let x be <op> e` is then an ordinary assignment of `<op> e`"
+        elif not vals or not all(pl_.dominates(ms[0], v) for v in vals):
+            ok, why = False, "the value of a `let` can be parsed before (or without) the operator match"
+        else:
+            fields = [f["name"] for f in F.adts["frontend::ast::Assignment"]["variants"][0]["fields"]]
+            for bi, si, st in pl_.assigns():
+                a = st["rv"].get("agg")
+                if isinstance(a, dict) and a.get("adt") == "frontend::ast::Assignment":
+                    o = st["rv"]["ops"][fields.index("operator")]
+                    from ..progress import deep_sources
+                    if ms[0] not in deep_sources(pl_, o):
+                        ok, why = False, "Assignment.operator of a `let` does not come from the operator match"
+        rep.ob("C14.R8", "let-compound-operator-always-asked", ok, why, pl_.loc(), how="match_and_consume({+, with, -, *, /}) on every path, before the value")
     rep.rule("C14.R7", "equality of values is the derived, component-wise equality -- symmetric and (NaN aside) reflexive by construction: the "
              "PartialEq impls of Val, Array and DictKey carry #[automatically_derived]; a hand-written comparison (one-directional over the "
              "dictionary, tolerant on numbers) cannot be shown symmetric or consistent with the ordering and is reported")
